@@ -130,8 +130,34 @@ let cmd_enc () =
       Printf.printf "%s %s %s\n" m spec dec
     | _ -> ()) (read_lines ())
 
+(* ---- expr: document::expr + Expr::run.  stdin: hex of the text per line; stdout per case
+   "<model sexp | NOPARSE>\t<model value | ERR | PANIC | FUEL | ->\t<spec value | FAIL | UNSPEC | ->" *)
+let unhex_string h = String.init (String.length h / 2) (fun i -> Char.chr (int_of_string ("0x" ^ String.sub h (2 * i) 2)))
+let eval_ctx () =
+  let c = ctx_new default_device in
+  { c with equs = [ (str_of_string "seven", EConst (z_of_int 7)); (str_of_string "big", EConst (z_of_string "1099511627776"));
+                    (str_of_string "neg", EConst (z_of_int (-9))) ];
+           labels = [ (str_of_string "lab", (SCode, n_of_int 100)) ] }
+let eval_env (n : ascii list) : z option =
+  match String.lowercase_ascii (string_of_str n) with
+  | "seven" -> Some (z_of_int 7) | "big" -> Some (z_of_string "1099511627776") | "neg" -> Some (z_of_int (-9))
+  | "lab" -> Some (z_of_int 100) | _ -> None
+let cmd_expr () =
+  let ctx = eval_ctx () in
+  List.iter (fun line ->
+    let text = unhex_string (String.trim line) in
+    match parse_expr (str_of_string text) with
+    | None -> print_string "NOPARSE\t-\t-\n"
+    | Some e ->
+      let v = match run (nat_of_int 100000) ctx e with
+        | Ok v -> string_of_z v | Err _ -> "ERR" | Panic -> "PANIC" | OutOfFuel -> "FUEL" in
+      let sp = match spec_eval eval_env e with
+        | Some (Some v) -> string_of_z v | Some None -> "FAIL" | None -> "UNSPEC" in
+      Printf.printf "%s\t%s\t%s\n" (string_of_str (show_expr e)) v sp) (read_lines ())
+
 let () =
   match Sys.argv.(1) with
+  | "expr" -> cmd_expr ()
   | "hex" -> cmd_hex ()
   | "enc" -> cmd_enc ()
   | c -> prerr_endline ("unknown command " ^ c); exit 2
